@@ -7,6 +7,7 @@ import (
 	"go/types"
 	"math/bits"
 	"strings"
+	"time"
 
 	"golang.org/x/tools/go/ssa"
 )
@@ -100,6 +101,7 @@ type Engine struct {
 	snapCount    int
 	frozenKey    map[string]bool
 	subTag       map[string]int64
+	started      time.Time
 }
 
 func NewEngine(P *Program) *Engine {
@@ -416,6 +418,9 @@ func (E *Engine) execFunc(fr *Frame, st *State, args []Val) ([]Val, *State) {
 				continue
 			}
 			E.instrCount++
+			if E.instrCount%2048 == 0 && !E.started.IsZero() && time.Since(E.started) > 4*time.Minute {
+				E.fail("symbolic execution budget exceeded (4 minutes): split the harness")
+			}
 			switch t := instr.(type) {
 			case *ssa.If:
 				c := E.term(fr, t.Cond)
